@@ -44,6 +44,7 @@ NEGATIVES = ["missing-partial", "partial+1", "partial-bitflip", "partial-negated
 KN = [(k, n) for n in range(2, 6) for k in range(1, n + 1)]
 
 GATES = {
+    "object-histories": ["reuse:musig-object-across-merkle-roots", "leaf-spend:multi-input-init-all-then-finalize-all"],
     "mixed-sighash-flags": ["leaf-spend:mixed-sighash-flags"],
     "monitors-ran": [
         "MuSigTapScript.__init__", "MuSigTapScript.nonce_sums", "MuSigTapScript.compute_r", "MuSigTapScript.compute_k",
@@ -739,6 +740,90 @@ def _run_repo_tests(ctx, names):
     ctx.count("repotests:run", res.testsRun)
 
 
+def musig_object_reuse(ctx, rng, serial):
+    """ONE MuSigTapScript object used for sessions under different merkle roots (root A, root B, untweaked, root A
+    again).  Each session has to end in a valid BIP340 signature for *its* tweak: nothing computed for an earlier
+    root may be reused (the get_signature contract judges every signature with the reference verifier)."""
+    from buidl.pecc import PrivateKey
+    from buidl.taproot import MuSigTapScript
+
+    n = 2 + serial % 3
+    secrets = []
+    while len(secrets) < n:
+        d = rng.randrange(1, ec.N)
+        if d not in secrets and (ec.N - d) not in secrets:
+            secrets.append(d)
+    privs = [PrivateKey(d) for d in secrets]
+    mo = outcome(MuSigTapScript, [p.point for p in privs])
+    if mo[0] != "ok":
+        return
+    musig = mo[1]
+    # sign() expects the keys in the object's own (sorted) order
+    by_x = {p.point.xonly(): p for p in privs}
+    ordered = [by_x[pt.xonly()] if pt.xonly() in by_x else None for pt in musig.points]
+    if any(o is None for o in ordered):
+        return
+    root_a, root_b = rng.randbytes(32), rng.randbytes(32)
+    for step, root in enumerate((root_a, root_b, b"", root_a)):
+        msg = rng.randbytes(32)
+        nonces = [[rng.randrange(1, ec.N), rng.randrange(1, ec.N)] for _ in ordered]
+        sig = _musig_sign_all(ctx, musig, ordered, msg, root, nonces)
+        ctx.monitor("musig-object-reuse")
+        if sig is None:
+            ctx.violation("honest-session-fails:same-object-other-merkle-root", f"step {step} (root {'none' if not root else root.hex()[:16]}) on a reused MuSigTapScript object produced no valid signature",
+                          {"op": "reuse", "secrets": secrets, "step": step})
+    ctx.count("reuse:musig-object-across-merkle-roots")
+    ctx.case(("musig-reuse", secrets))
+
+
+def multi_input_leaf_spends(ctx, rng, serial):
+    """A transaction with several inputs, each spending a DIFFERENT k-subset leaf of the same tree: all inputs are
+    initialised first, then all are signed, then all are finalised.  Every input must verify."""
+    from buidl.pecc import PrivateKey
+    from buidl.taproot import TapRootMultiSig
+    from buidl.tx import Tx, TxIn, TxOut
+
+    n, k = (3, 2) if serial % 2 else (4, 2)
+    privs = [PrivateKey(rng.randrange(1, ec.N)) for _ in range(n)]
+    points = [p.point for p in privs]
+    to = outcome(TapRootMultiSig, points, k)
+    if to[0] != "ok":
+        return
+    trm = to[1]
+    tree = trm.multi_leaf_tree()
+    internal = trm.default_internal_pubkey
+    spk = internal.p2tr_script(tree.hash())
+    leaves = _fresh_leaves(tree)
+    subsets = list(itertools.combinations(range(n), k))
+    rng.shuffle(subsets)
+    subsets = subsets[: 2 + serial % 2]
+    tx_ins = []
+    for j in range(len(subsets)):
+        ti = TxIn(rng.randbytes(32), j)
+        ti._value = 1_000_000 + j
+        ti._script_pubkey = spk
+        tx_ins.append(ti)
+    tx = Tx(2, tx_ins, [TxOut(900_000, spk)], 0, network="signet", segwit=True)
+    chosen = []
+    for j, subset in enumerate(subsets):
+        want = frozenset(points[i].xonly() for i in subset)
+        leaf = [lf for lf in leaves if _key_set(lf.tap_script) == want][0]
+        chosen.append(leaf)
+        outcome(tx.initialize_p2tr_multisig, j, tree.control_block(internal, leaf), leaf.tap_script)
+    sigs = []
+    for j, subset in enumerate(subsets):
+        sigs.append([outcome(tx.get_sig_taproot, j, privs[i], 1)[1] for i in subset])
+    case = {"op": "multi-input", "n": n, "k": k, "subsets": [list(s) for s in subsets]}
+    for j in range(len(subsets)):
+        fo = outcome(tx.finalize_p2tr_multisig, j, sigs[j])
+        vo = outcome(tx.verify_input, j)
+        ctx.monitor("verify_input:multi-input-leaf")
+        if fo != ("ok", True) or vo != ("ok", True):
+            ctx.violation("leaf-spend-fails:multi-input-init-all-then-finalize-all", f"input {j}: finalize -> {fo}, verify_input -> {vo}", case)
+    ctx.count("leaf-spend:multi-input-init-all-then-finalize-all")
+    ctx.case(("multi-input", [tuple(s) for s in subsets], n, k, serial))
+
+
 def run_shard(desc, ctx):
     ec.selfcheck()
     rt.selfcheck()
@@ -774,6 +859,9 @@ def run_shard(desc, ctx):
         if j < 2:
             ctx.sample({"session": {"n": n, "root": spec["root"], "msg": spec["msg"], "use_generate": spec["use_generate"]}})
         run_session(ctx, spec)
+    for j in range(1 if ctx.tier == "quick" else 6):
+        musig_object_reuse(ctx, ctx.rng("musig-reuse", j), idx + j)
+        multi_input_leaf_spends(ctx, ctx.rng("multi-input", j), idx + j)
     if not ctx.timed_out:
         ctx.exhaustive.append("(k, n) pairs with 1 <= k <= n, 2 <= n <= 5: every k-subset checked against the generated trees")
 
